@@ -23,7 +23,7 @@ Bases == << <<Cp("-true")>>, <<Cp("-true"), Cp("-o"), Cp("-false")>>, <<Cp("("),
             <<Cp("!"), Cp("-uid +3"), Cp(","), Cp("-perm 644"), Cp("-a"), Cp("-print0")>> >>
 
 Init == vSeq = <<>>
-NBad(e) == 2 + Len(BadFromStart(e.args[Len(e.args)]))
+NBad(e) == 3 + Len(BadFromStart(e.args[Len(e.args)]))
 Next ==
   IF Mode = "arg" THEN
     \/ Len(vSeq) = 0 /\ \E b \in 1..Len(Before) : vSeq' = <<b>>
@@ -40,7 +40,8 @@ TextArg ==
       bads == BadFromStart(e.args[Len(e.args)])
   IN IF x = 0 THEN Before[vSeq[1]] \o e.kw \o lead                       \* end of input (after ignored)
      ELSE IF x = 1 THEN Before[vSeq[1]] \o <<cLP, cSP>> \o e.kw \o lead \o <<cSP, cRP>> \o After[vSeq[4]]
-     ELSE Before[vSeq[1]] \o e.kw \o lead \o <<cSP>> \o bads[x - 1] \o After[vSeq[4]]
+     ELSE IF x = 2 THEN Before[vSeq[1]] \o <<cLP, cSP>> \o e.kw \o lead \o <<cRP>> \o After[vSeq[4]]    \* ")" glued: still missing
+     ELSE Before[vSeq[1]] \o e.kw \o lead \o <<cSP>> \o bads[x - 2] \o After[vSeq[4]]
 
 TextUnknown ==
   LET b == Bases[vSeq[1]]
